@@ -213,6 +213,7 @@ func (p *Processor[K, T]) processLoop() {
 			continue
 		}
 
+		verifhook.Point("queue.loop.beforeTimer", r, deadline)
 		t = p.clock.NewTimer(deadline)
 		verifhook.Point("queue.loop.parked", r)
 		select {
